@@ -61,8 +61,10 @@ def h_newton(c):
     if "maxiter" in c:
         kw["maxiter"] = dec(c["maxiter"]) if isinstance(c["maxiter"], str) else c["maxiter"]
     phases, err, it, proto = newton_Solver(coef, c["parity"], **kw)
+    pts = numpy.array([-1.0, -0.6, 0.2, 1.0])
     return {"phases": enc(numpy.asarray(phases, dtype=float)), "err": enc(float(err)), "iter": int(it),
-            "proto": _proto_state(proto), "arg_unchanged": bool(numpy.array_equal(before, coef))}
+            "proto": _proto_state(proto), "arg_unchanged": bool(numpy.array_equal(before, coef)),
+            "resp_im": enc(numpy.asarray(proto.gen_response_im(pts), dtype=float))}     # the returned object's own response
 
 
 HANDLERS = {"symqsp": h_symqsp, "newton": h_newton}
